@@ -54,6 +54,18 @@ def strip_trailing_empty(parts):
     return parts
 
 
+def ref_suffix(name):
+    """The file extension of a name as pathlib defines it: the tail from the last dot, unless that dot is first or last."""
+    i = name.rfind(".")
+    return name[i:] if 0 < i < len(name) - 1 else ""
+
+
+def ref_suffixes(name):
+    if name.endswith("."):
+        return ()
+    return tuple("." + x for x in name.lstrip(".").split(".")[1:])
+
+
 def check_static(u):
     probs = []
     rp, raw = u.raw_parts, u.raw_path
@@ -71,6 +83,13 @@ def check_static(u):
     if name != exp_name:
         probs.append("name %r is not the last part of %r" % (name, parts))
     suf, sufs = u.suffix, u.suffixes
+    raw_name = u.raw_name
+    if u.raw_suffix != ref_suffix(raw_name):
+        probs.append("raw_suffix %r is not the last-dot tail %r of raw_name %r" % (u.raw_suffix, ref_suffix(raw_name), raw_name))
+    if tuple(u.raw_suffixes) != ref_suffixes(raw_name):
+        probs.append("raw_suffixes %r, expected %r for raw_name %r" % (u.raw_suffixes, ref_suffixes(raw_name), raw_name))
+    if "%" not in raw_name and (suf != ref_suffix(name) or tuple(sufs) != ref_suffixes(name)):
+        probs.append("suffix %r / suffixes %r are not the dot tails of name %r" % (suf, sufs, name))
     if not name.endswith(suf):
         probs.append("suffix %r is not a tail of name %r" % (suf, name))
     if not name.endswith("".join(sufs)):
@@ -198,15 +217,24 @@ def case_with_suffix(acc, prefix, path, x):
         return None
     acc.nontrivial += 1
     probs = check_static(r)
-    rsuf = u.raw_suffix
+    rsuf = ref_suffix(u.raw_name)
     raw_stem = u.raw_name[:len(u.raw_name) - len(rsuf)] if rsuf else u.raw_name
-    stem = u.name[:len(u.name) - len(u.suffix)] if u.suffix else u.name
+    dsuf = pct.decode_ref(rsuf)
+    stem = u.name[:len(u.name) - len(dsuf)] if dsuf else u.name
     if r.name != stem + x:
         probs.append("name %r, expected stem %r + %r" % (r.name, stem, x))
     if not r.raw_name.startswith(raw_stem):
         probs.append("raw stem re-encoded: raw_name %r does not start with %r" % (r.raw_name, raw_stem))
     if tuple(r.raw_parts[:-1]) != tuple(u.raw_parts[:-1]):
         probs.append("other segments changed: %r -> %r" % (u.raw_parts, r.raw_parts))
+    try:
+        r2 = r.with_suffix(".zz")
+        rs2 = ref_suffix(r.raw_name)
+        want = (r.raw_name[:len(r.raw_name) - len(rs2)] if rs2 else r.raw_name) + ".zz"
+        if r2.raw_name != want:
+            probs.append("a second with_suffix('.zz') gives raw_name %r, expected %r" % (r2.raw_name, want))
+    except (ValueError, TypeError):
+        pass
     if probs:
         acc.viol("with_suffix", (prefix, path, x), observed=str(r), expected="only the suffix replaced",
                  msg="URL(%r).with_suffix(%r) -> %r: %s" % (base, x, str(r), "; ".join(probs)))
